@@ -16,6 +16,8 @@ open Drv
 type kind = KM | KR | KI of int | KX of int
 
 let eval inp obs =
+  (* CPN = CP with empty lists / no strategies passed as nil slices (no difference for the model) *)
+  let inp = (match inp with "CPN" :: rest -> "CP" :: rest | _ -> inp) in
   match inp with
   | "CP" :: rest ->
     let q = ref rest in
@@ -29,7 +31,8 @@ let eval inp obs =
     let kinds = times ns (fun () ->
       let s = next () in
       let arg () = int_of_string (String.sub s 1 (String.length s - 1)) in
-      match s.[0] with 'M' -> KM | 'R' -> KR | 'I' -> KI (arg ()) | 'X' -> KX (arg ())
+      (* R<seed>, N (NewRandomStrategy(nil)), Q<seed> (one shared object): random oracles *)
+      match s.[0] with 'M' -> KM | 'R' | 'N' | 'Q' -> KR | 'I' -> KI (arg ()) | 'X' -> KX (arg ())
                      | _ -> failwith "bad strategy") in
     let nm = cnt () in
     let table = times nm (fun () -> let i = next () in let m = next () in (i, n_of_tok m)) in
